@@ -73,7 +73,7 @@ hook_commits = [l.split()[0] for l in hooks if "verif hooks" in l]
 
 manifest = {
  "version": 1,
- "setup_cmd": "cd /verif/harness && CARGO_NET_OFFLINE=true cargo build --release --offline",
+ "setup_cmd": "cd /verif/harness && CARGO_NET_OFFLINE=true cargo build --release --offline && cd fuzz && CARGO_NET_OFFLINE=true cargo +nightly fuzz build -O -s none",
  "hooks": {
    "guard": "cargo feature `verif` of bevy_cobweb",
    "enable": "the harness crate depends on bevy_cobweb = { path = \"/repo\", features = [\"verif\"] }; every check runs `cargo build --release --offline` first",
